@@ -171,6 +171,8 @@ impl ExecutorInner {
             ACTIVE_TASKS.set(&self.active_tasks, || {
                 EXECUTOR_CONTEXT.set(&self.context, || {
                     panic::catch_unwind(AssertUnwindSafe(|| loop {
+                        #[cfg(feature = "verif-hooks")]
+                        crate::verif_hooks::st_before_pop(&self.context.queue);
                         let task = match self.context.queue.borrow_mut().pop() {
                             Some(task) => task,
                             None => break,
